@@ -75,7 +75,9 @@ def check_one(case, ctx, deep):
     classes = [f'contingent={min(n_cont, 3)}{"+" if n_cont > 3 else ""}']
     classes += [k for k, v in flags.items() if v] + (['empty-result'] if not want else [])
     ctx.case(plain, nt, classes)
-    for _ in range(2 if deep else 1):
+    for rep_ in range(2 if deep else 1):
+        if rep_:
+            lib.interfere(case)   # other contexts created and queried in between (DESIGN.md 10.2)
         context = ctx.call('Context()', plain, lib.context_of, case)
         for unary in (False, True):
             want, _, _ = expected(case, unary)
